@@ -229,7 +229,16 @@ def run_cc(prop, tier):
                     mine.append(f)
             summ6["variant"] = v6
             rsum.append(summ6)
-        extra_cov = {"extraction_in_rewriting_runs": {"recorder": rsum}}
+        # design level: the work-list algorithm of Extractor::new computes the least fixpoint (= MinCost) on EVERY small e-graph
+        xst = {}
+        for cfgname in ["MC_ExtractOp", "MC_ExtractOp4", "MC_ExtractOpLive"]:
+            xlog, st_x = run_tlc("ExtractOp", cfgname + ".cfg", {}, "C06_" + cfgname, workers=6, timeout=1500)
+            require_tlc_ok(st_x, xlog, cfgname)
+            xst[cfgname] = st_x
+        extra_cov = {"extraction_in_rewriting_runs": {"recorder": rsum},
+                     "operational_model": {"what": "ExtractOp.tla (Extractor::new as a Dijkstra-style work list, ties broken in every possible way) reaches exactly the "
+                                                   "classes with a finite term and the least-fixpoint cost on every e-graph with <=3 e-nodes over 3 classes (weighted size), "
+                                                   "<=4 e-nodes over 2 classes (weighted depth); termination under weak fairness on <=3 nodes over 2 classes", "tlc": xst}}
     if prop == "C14":
         import rw
         f2, st2, summ2, ndumps = rw.c14_constfold(tier)
@@ -239,7 +248,8 @@ def run_cc(prop, tier):
                                                   "fixpoint of make over the dumped e-nodes, class with a value contains the literal, value = model value"}}
     if prop in ("C08", "C12"):
         import egop
-        extra_cov = dict(extra_cov, operational_model=egop.run_tier(tier, tables, prop))
+        # C12 runs the full configuration of the tier; C08 (WellFormed) always the small one
+        extra_cov = dict(extra_cov, operational_model=egop.run_tier(tier if prop == "C12" else "quick", tables, prop))
     others = {}
     for f in findings:
         if f["prop"] != prop:
